@@ -85,6 +85,11 @@ def arraybox_table(ctx, world):
         elif name in ops["inplace_dunders"]:
             n += 1
             ctx.fail("A6.ops", inst, inst, loc, f"ArrayBox defines {name}: assignment into / in-place update of a traced array would be accepted silently", "x[0] = 1.0 or x += y inside a differentiated function")
+        elif name == "__hash__":
+            n += 1
+            e = _ret_expr(fn)
+            ok = isinstance(e, ast.Call) and isinstance(e.func, ast.Name) and e.func.id == "id" and len(e.args) == 1 and isinstance(e.args[0], ast.Name) and e.args[0].id == fn.args.args[0].arg
+            _okfail(ctx, "A14", inst, ok, loc, "ArrayBox.__hash__ is not id(self): boxes are graph nodes, equality is element-wise (returns an array), so a value-based hash makes two different nodes that hold equal numbers collide as dict/set keys", "a memo table / set keyed on traced scalars, evaluated where two different intermediate values coincide numerically")
         elif name == "__len__":
             n += 1
             e = _ret_expr(fn)
